@@ -258,6 +258,28 @@ func execPort(c portCase, _ *kit.Env) kit.Outcome {
 			}
 
 			np := mk()
+
+			if op.A%2 == 1 {
+				// load into a live port that already holds other messages
+				if c.InCap > 0 {
+					np.Deliver(portMsg{MsgMeta: messaging.MsgMeta{ID: 900001, Src: "Other.P", Dst: "StubComp.P"}, Body: "stale"})
+					wantRecv++
+
+					if c.Hooks {
+						wantHook = append(wantHook, "Port Msg Recv:900001")
+					}
+				}
+
+				if c.OutCap > 0 {
+					np.Send(portMsg{MsgMeta: messaging.MsgMeta{ID: 900002, Src: "StubComp.P", Dst: "Other.P"}, Body: "stale"})
+					wantSend++
+
+					if c.Hooks {
+						wantHook = append(wantHook, "Port Msg Send:900002")
+					}
+				}
+			}
+
 			if err := np.(ckptPort).LoadCheckpoint(&buf); err != nil {
 				return fail(i, "checkpoint", "LoadCheckpoint: %v", err)
 			}
